@@ -122,6 +122,9 @@ func AppendSENString(buf []byte, s string, htmlSafe bool) []byte {
 	if s[0] == '&' { // not a token start character for the parser
 		quote = true
 	}
+	if s[0] == 0xEF { // at the start of a document the parsers take 0xEF for the start of a BOM
+		quote = true
+	}
 	buf = append(buf, '"')
 	start := 0
 	skip := 0
